@@ -60,30 +60,33 @@ func (c *Consistent) hash(key string) int64 {
 // pick get a  node
 func (c *Consistent) pick(sessions *sync.Map, key string) getty.Session {
 	hashKey := c.hash(key)
-
-	c.RLock()
-	index := sort.Search(len(c.sortedHashNodes), func(i int) bool {
-		return c.sortedHashNodes[i] >= hashKey
-	})
-
-	if index == len(c.sortedHashNodes) {
-		c.RUnlock()
-		return RandomLoadBalance(sessions, key)
+	session, ok := c.lookup(hashKey)
+	if ok && session.IsClosed() {
+		// the ring is stale: rebuild it from the sessions that are open now and
+		// look again, so that a closed session is never handed out
+		c.refreshHashCircle(sessions)
+		session, ok = c.lookup(hashKey)
 	}
-
-	session, ok := c.hashCircle[c.sortedHashNodes[index]]
-	if !ok {
-		c.RUnlock()
+	if !ok || session.IsClosed() {
 		return RandomLoadBalance(sessions, key)
-	}
-	c.RUnlock()
-
-	if session.IsClosed() {
-		go c.refreshHashCircle(sessions)
-		return c.firstKey()
 	}
 
 	return session
+}
+
+// lookup returns the session of the first virtual node at or after hashKey
+func (c *Consistent) lookup(hashKey int64) (getty.Session, bool) {
+	c.RLock()
+	defer c.RUnlock()
+
+	index := sort.Search(len(c.sortedHashNodes), func(i int) bool {
+		return c.sortedHashNodes[i] >= hashKey
+	})
+	if index == len(c.sortedHashNodes) {
+		return nil, false
+	}
+	session, ok := c.hashCircle[c.sortedHashNodes[index]]
+	return session, ok
 }
 
 // refreshHashCircle refresh hashCircle
@@ -114,17 +117,6 @@ func (c *Consistent) refreshHashCircle(sessions *sync.Map) {
 	defer c.Unlock()
 	c.sortedHashNodes = sortedHashNodes
 	c.hashCircle = hashCircle
-}
-
-func (c *Consistent) firstKey() getty.Session {
-	c.RLock()
-	defer c.RUnlock()
-
-	if len(c.sortedHashNodes) > 0 {
-		return c.hashCircle[c.sortedHashNodes[0]]
-	}
-
-	return nil
 }
 
 func newConsistenceInstance(sessions *sync.Map) *Consistent {
